@@ -8,6 +8,8 @@
   `opts.schemas` is the type table (initial entries and `ForOptions.TypeSchemas`), whose schemas live in `st`.
 -/
 import JSV.Proofs.InfEqns
+import JSV.Proofs.InfEmbCons
+import JSV.Proofs.InfEmbDom
 namespace JSV.C16
 open JSV Go EncJson
 
@@ -393,5 +395,289 @@ example : (match forType { schemas := [("time.Time", 0)] } 2
 /-- `type L []L` -/
 example : forType {} 5 (.named "L" (.slice (.ref "L"))) #[] = .err :=
   (recursive_slice_errors {} 3 "L" #[] rfl).1
+
+
+/-! ## embedded struct fields (`forTypeE`, JSV/Model/InferEmb.lean; encoding/json side: JSV/Spec/EncJsonEmb.lean)
+
+  `Go.forTypeE opts fuel T st` is the model of `ForType` on the type language with embedded fields `GoTypeE`
+  (helper lemmas: JSV/Proofs/InfEmbStore.lean, InfEmbCons.lean, InfEmbNames.lean, InfEmbDom.lean). -/
+
+open EncJsonEmb in
+/-- determinism: the result is a function of `(opts, fuel, T, st)` -/
+theorem forTypeE_deterministic (opts : IOpts) (fuel : Nat) (T : GoTypeE) (st : Store)
+    (r₁ r₂ : Res (Option NodeId × Store))
+    (h₁ : forTypeE opts fuel T st = r₁) (h₂ : forTypeE opts fuel T st = r₂) : r₁ = r₂ :=
+  h₁.symm.trans h₂
+
+/-- nothing that exists is modified: the type table (`TypeSchemas`, including the overrides of embedded types, whose
+    properties are cloned) and every earlier result are untouched -/
+theorem forTypeE_store_extends (opts : IOpts) (fuel : Nat) (T : GoTypeE) (st : Store) (r : Option NodeId) (st' : Store)
+    (h : forTypeE opts fuel T st = .ok (r, st')) :
+    st.size ≤ st'.size ∧ ∀ i, i < st.size → st'.get? i = st.get? i :=
+  (inferFuelE_inv opts fuel _ _ _ _ _ h).1
+
+/-- the result is fresh: every `*Schema` reachable from it was allocated after the call started; none is shared with
+    an earlier result or with the type table -/
+theorem forTypeE_fresh (opts : IOpts) (fuel : Nat) (T : GoTypeE) (st : Store) (id : NodeId) (st' : Store)
+    (h : forTypeE opts fuel T st = .ok (some id, st')) :
+    st.size ≤ id ∧ ∀ b, Go.Reach st' id b → st.size ≤ b ∧ st.get? b = none := by
+  obtain ⟨_, hid, hf⟩ := inferFuelE_inv opts fuel _ _ _ _ _ h
+  have hf0 : FreshAbove st.size st := by
+    intro i n hi hn
+    exact absurd (lt_size_of_get? hn) (Nat.not_lt_of_le hi)
+  have hf' := hf st.size (Nat.le_refl _) hf0
+  refine ⟨(hid id rfl).1, fun b hb => ?_⟩
+  have hb' := Reach.fresh hf' hb (hid id rfl).1
+  exact ⟨hb', get?_eq_none_iff.2 hb'⟩
+
+/-- the same for the model's own traversal `Go.reachable` -/
+theorem forTypeE_fresh_reachable (opts : IOpts) (fuel : Nat) (T : GoTypeE) (st : Store) (id : NodeId) (st' : Store)
+    (h : forTypeE opts fuel T st = .ok (some id, st')) (f : Nat) :
+    ∀ b, b ∈ Go.reachable st' f [id] → st.size ≤ b ∧ st.get? b = none := by
+  intro b hb
+  obtain ⟨a, ha, hr⟩ := reachable_sound st' f [id] b hb
+  cases List.mem_singleton.1 ha
+  exact (forTypeE_fresh opts fuel T st id st' h).2 b hr
+
+/-- no schema of the type table — in particular no override of an embedded type and none of its properties — is
+    part of the result -/
+theorem forTypeE_disjoint_from_table (opts : IOpts) (fuel : Nat) (T : GoTypeE) (st : Store) (id : NodeId) (st' : Store)
+    (h : forTypeE opts fuel T st = .ok (some id, st')) (sid : NodeId) (n : Node) (hn : st.get? sid = some n) :
+    ¬ Go.Reach st' id sid := by
+  intro hr
+  have := ((forTypeE_fresh opts fuel T st id st' h).2 sid hr).2
+  rw [hn] at this
+  cases this
+
+/-- two successive calls give disjoint results -/
+theorem forTypeE_twice_disjoint (opts₁ opts₂ : IOpts) (f₁ f₂ : Nat) (T₁ T₂ : GoTypeE) (st : Store)
+    (id₁ id₂ : NodeId) (st₁ st₂ : Store)
+    (h₁ : forTypeE opts₁ f₁ T₁ st = .ok (some id₁, st₁)) (h₂ : forTypeE opts₂ f₂ T₂ st₁ = .ok (some id₂, st₂)) :
+    id₁ < id₂ ∧ (∀ b, Go.Reach st₂ id₂ b → st₁.get? b = none) ∧ ∀ i, i < st₁.size → st₂.get? i = st₁.get? i := by
+  obtain ⟨_, hid, _⟩ := inferFuelE_inv opts₁ f₁ _ _ _ _ _ h₁
+  have h2 := forTypeE_fresh _ _ _ _ _ _ h₂
+  exact ⟨Nat.lt_of_lt_of_le (hid id₁ rfl).2 h2.1, fun b hb => (h2.2 b hb).2, (forTypeE_store_extends _ _ _ _ _ _ h₂).2⟩
+
+/-- **conservativity**: on a type without embedded fields (`GoType.toE`: every field exported, none embedded) whose
+    structs have pairwise distinct Go field names (`DistinctNames`; the compiler and reflect.StructOf refuse anything
+    else) `forTypeE` is `forType`: the same outcome, the same schema, the same store -/
+theorem forTypeE_conservative (opts : IOpts) (fuel : Nat) (T : GoType) (st : Store) (hd : DistinctNames T = true) :
+    forTypeE opts fuel T.toE st = forType opts fuel T st :=
+  inferFuelE_toE opts fuel T [] st hd
+
+/-- … the hypothesis is needed: two fields of one Go name at one depth hide each other in reflect.VisibleFields -/
+example : (visibleFields (fieldsToE [("A", "", .basic "Int"), ("A", "", .basic "Int")])).length = 0 := by decide
+
+open EncJsonEmb in
+/-- **properties = encoding/json's fields (partial)**.  For a struct type of the domain `InDomainE` — embedded fields
+    are untagged exported declared struct types, by value or by pointer; within the whole tree of embedded structs the
+    JSON name of a field is determined by its Go name and vice versa, and no Go name occurs twice at one depth
+    (`namesOk`), so that Go's selector shadowing and encoding/json's dominance coincide; field types as in
+    `EncJson.InDomain` — none of whose embedded types has a TypeSchemas entry (`NoOverride`):
+    `propertyOrder` is the list of JSON names of `EncJsonEmb.typeFields`, in the same order (the order json.Marshal
+    emits), the keys of `properties` are the same names, and `required` lists, in order, those without omitempty /
+    omitzero.
+
+    Partial, what is missing: (1) types outside `InDomainE` — a JSON name shared by two Go names is the known
+    finding D14 (see the witness below), tagged or non-struct or unexported embedded fields are D16; (2) named
+    (declared) types in non-embedded positions, as in C04/C09 (`InDomain` has none; they are covered by
+    `typeTable_substituted`); (3) overrides of embedded types: the full statement would add the override's property
+    names (sorted, where absent) at the position of the embedded field and drop the promoted fields below it:
+      propertyOrder = dedupKeepLast (the names entered by `structLoopE` field by field)
+    which `structLoopE` computes but no theorem here states. -/
+theorem properties_eq_encjson_partial (opts : IOpts) (fuel : Nat) (fields : List (FieldE GoTypeE)) (st : Store)
+    (id : NodeId) (st' : Store) (hdom : InDomainE (.struct fields) = true)
+    (hno : NoOverride opts (visibleFields fields))
+    (h : forTypeE opts (fuel + 1) (.struct fields) st = .ok (some id, st')) :
+    ∃ n, st'.get? id = some n ∧ n.type = "object" ∧
+      n.propertyOrder.getD [] = fieldNames fields ∧
+      (∀ k, k ∈ (n.properties.getD []).map (·.1) ↔ k ∈ fieldNames fields) ∧
+      n.required.getD [] = alwaysFieldNames fields := by
+  change inferStepE opts (inferFuelE opts fuel) (.struct fields) [] st = _ at h
+  obtain ⟨id', n, hid, hn, h1, h2, h3, h4⟩ :=
+    inferStepE_struct_names (inferFuelE_some opts fuel) (t0 := .struct fields) (an := false) rfl hdom hno h
+  cases hid
+  rw [addNull_false] at hn
+  exact ⟨n, hn, h1, h2, h3, h4⟩
+
+open EncJsonEmb in
+/-- … in particular `required`, as a set, is the set of fields without omitempty / omitzero -/
+theorem required_iff_not_omit_partial (opts : IOpts) (fuel : Nat) (fields : List (FieldE GoTypeE)) (st : Store)
+    (id : NodeId) (st' : Store) (hdom : InDomainE (.struct fields) = true)
+    (hno : NoOverride opts (visibleFields fields))
+    (h : forTypeE opts (fuel + 1) (.struct fields) st = .ok (some id, st')) :
+    ∃ n, st'.get? id = some n ∧
+      ∀ k, k ∈ n.required.getD [] ↔ ∃ f, f ∈ typeFields fields ∧ f.name = k ∧ f.omitempty = false ∧ f.omitzero = false := by
+  obtain ⟨n, hn, _, _, _, hr⟩ := properties_eq_encjson_partial opts fuel fields st id st' hdom hno h
+  refine ⟨n, hn, fun k => ?_⟩
+  rw [hr]
+  unfold alwaysFieldNames
+  simp only [List.mem_map, List.mem_filter, Bool.and_eq_true, Bool.not_eq_true']
+  constructor
+  · rintro ⟨f, ⟨hf, he, hz⟩, rfl⟩
+    exact ⟨f, hf, rfl, he, hz⟩
+  · rintro ⟨f, hf, rfl, he, hz⟩
+    exact ⟨f, ⟨hf, he, hz⟩, rfl⟩
+
+/-! ### witnesses for embedded fields
+
+  `tagLookup` splits the tag with `String.splitOn`, which the kernel does not evaluate (well-founded recursion): a
+  witness over concrete tags takes what the tag parser returns for each tag as a hypothesis (`Parses`; the parser
+  itself is specified above: `fieldJSONInfo_named`, `fieldJSONInfo_no_tag`, …) and evaluates everything else. -/
+
+/-- what the tag parser says about one field tag: `fieldJSONInfo`, no `jsonschema` key, the name part of the `json` tag -/
+structure Parses (goName tag : String) (info : JsonInfo) (tagName : String) : Prop where
+  info : fieldJSONInfo goName tag = info
+  desc : tagLookup "jsonschema" tag = none
+  tagName : EncJsonEmb.jsonTagName tag = tagName
+
+theorem kindEntry_Int : kindEntry "Int" = some ("integer", none, none) := by decide
+theorem kindEntry_String : kindEntry "String" = some ("string", none, none) := by decide
+
+/-- an exported, non-embedded field -/
+def fld (g tag : String) (t : GoTypeE) : FieldE GoTypeE :=
+  { goName := g, tag := tag, exported := true, embedded := false, type := t }
+/-- an exported embedded field -/
+def emb (g tag : String) (t : GoTypeE) : FieldE GoTypeE :=
+  { goName := g, tag := tag, exported := true, embedded := true, type := t }
+
+/-- `PropertyOrder`, `Required`, and `Properties` as (name, type keyword) of a result -/
+def summary (r : Res (Option NodeId × Store)) : Option (List String × List String × List (String × String)) :=
+  match r with
+  | .ok (some id, st') => (st'.get? id).map fun n =>
+      (n.propertyOrder.getD [], n.required.getD [],
+       (n.properties.getD []).map fun p => (p.1, ((st'.get? p.2).map (·.type)).getD "?"))
+  | _ => none
+
+section Witnesses
+open EncJsonEmb
+variable (tI tX tY tA tM : String)
+  (hI : Parses "Inner" tI { name := "Inner" } "")                            -- the embedded field: no tag
+  (hX : Parses "X" tX { name := "x" } "x")                                   -- X int `json:"x"`
+  (hY : Parses "Y" tY { name := "y", omitempty := true } "y")                -- Y string `json:"y,omitempty"`
+  (hA : Parses "A" tA { name := "a" } "a")                                   -- A int `json:"a"`
+include hI hX hY hA
+
+/-- `type Inner struct { X int "json:\"x\""; Y string "json:\"y,omitempty\"" }` -/
+def innerT (tX tY : String) : GoTypeE := .named "Inner" (.struct [fld "X" tX (.basic "Int"), fld "Y" tY (.basic "String")])
+
+/-- (i) `struct{ Inner; A int "json:\"a\"" }`: properties x, y, a in that order, required [x, a] -/
+example : summary (forTypeE {} 3 (.struct [emb "Inner" tI (innerT tX tY), fld "A" tA (.basic "Int")]) #[]) =
+    some (["x", "y", "a"], ["x", "a"], [("x", "integer"), ("y", "string"), ("a", "integer")]) := by
+  simp [summary, innerT, fld, emb, forTypeE, inferFuelE, inferStepE, stripPtrsE, typeNameE, visibleFields, allFields, embFields,
+    isVisible, structLoopE, fieldStepE, fieldJSONInfoE, underSkip, overrideOf, addFieldE, hX.info, hY.info, hA.info, hX.desc,
+    hY.desc, hA.desc, Res.bind_ok, kindEntry_Int, kindEntry_String, Store.alloc, Store.get?, addNull, dedupKeepLast]
+
+/-- … which is what encoding/json emits -/
+example : fieldNames [emb "Inner" tI (innerT tX tY), fld "A" tA (.basic "Int")] = ["x", "y", "a"] ∧
+    alwaysFieldNames [emb "Inner" tI (innerT tX tY), fld "A" tA (.basic "Int")] = ["x", "a"] := by
+  simp [innerT, fld, emb, fieldNames, alwaysFieldNames, typeFields, candidates, embCandidates, classify, mkTField, isDominant,
+    dominates, isStructE, derefE, hI.info, hI.tagName, hX.info, hX.tagName, hY.info, hY.tagName, hA.info, hA.tagName]
+
+/-- (ii) shadowing: `struct{ X string "json:\"x\""; Inner }` — the outer `X`, declared before the embedded struct,
+    hides `Inner.X`: `x` is the string -/
+example : summary (forTypeE {} 3 (.struct [fld "X" tX (.basic "String"), emb "Inner" tI (innerT tX tY)]) #[]) =
+    some (["x", "y"], ["x"], [("x", "string"), ("y", "string")]) := by
+  simp [summary, innerT, fld, emb, forTypeE, inferFuelE, inferStepE, stripPtrsE, typeNameE, visibleFields, allFields, embFields,
+    isVisible, structLoopE, fieldStepE, fieldJSONInfoE, underSkip, overrideOf, addFieldE, hX.info, hY.info, hX.desc,
+    hY.desc, Res.bind_ok, kindEntry_String, Store.alloc, Store.get?, addNull, dedupKeepLast]
+
+example : (typeFields [fld "X" tX (.basic "String"), emb "Inner" tI (innerT tX tY)]).map (fun f => (f.name, f.index)) =
+    [("x", [0]), ("y", [1, 1])] := by
+  simp [innerT, fld, emb, typeFields, candidates, embCandidates, classify, mkTField, isDominant,
+    dominates, isStructE, derefE, hI.info, hI.tagName, hX.info, hX.tagName, hY.info, hY.tagName]
+
+/-- (iii) the known finding D14, as the model (= the code) behaves: `struct{ Y string "json:\"x\""; Inner }`.  The Go
+    name `Y` hides `Inner.Y`; `Inner.X` is visible (no other `X`) and is entered under the JSON name `x` after the
+    outer field: `x` becomes the integer of `Inner.X`, and `x` is listed twice in `required` … -/
+example (tY' : String) (hY' : Parses "Y" tY' { name := "x" } "x") :
+    summary (forTypeE {} 3 (.struct [fld "Y" tY' (.basic "String"), emb "Inner" tI (innerT tX tY)]) #[]) =
+    some (["x"], ["x", "x"], [("x", "integer")]) := by
+  simp [summary, innerT, fld, emb, forTypeE, inferFuelE, inferStepE, stripPtrsE, typeNameE, visibleFields, allFields, embFields,
+    isVisible, structLoopE, fieldStepE, fieldJSONInfoE, underSkip, overrideOf, addFieldE, hX.info, hY'.info, hX.desc,
+    hY'.desc, Res.bind_ok, kindEntry_Int, kindEntry_String, Store.alloc, Store.get?, addNull, dedupKeepLast]
+
+/-- … while encoding/json keeps the shallower field, the string `Y`, under `x`, and `Inner.Y` under `y` -/
+example (tY' : String) (hY' : Parses "Y" tY' { name := "x" } "x") :
+    (typeFields [fld "Y" tY' (.basic "String"), emb "Inner" tI (innerT tX tY)]).map (fun f => (f.name, f.index)) =
+    [("x", [0]), ("y", [1, 1])] := by
+  simp [innerT, fld, emb, typeFields, candidates, embCandidates, classify, mkTField, isDominant,
+    dominates, isStructE, derefE, hI.info, hI.tagName, hX.info, hX.tagName, hY.info, hY.tagName, hY'.info, hY'.tagName]
+
+end Witnesses
+
+/-- the clone of the override's property `q` (made when the store already holds the two nodes of
+    `additionalProperties: false`) -/
+theorem clone_override_q :
+    clone #[{ type := "object", properties := some [("q", 1)] }, { type := "boolean" }, emptyNode,
+        { emptyNode with not := some 2 }] 1 =
+      .ok (4, #[{ type := "object", properties := some [("q", 1)] }, { type := "boolean" }, emptyNode,
+        { emptyNode with not := some 2 }, { type := "boolean" }]) := by rfl
+
+/-- (iv) a TypeSchemas override of an embedded type two levels down: `Outer{ Mid; O int "json:\"o\"" }`,
+    `Mid{ Inner; M int "json:\"m\"" }`, TypeSchemas[Inner] = `{"type":"object","properties":{"q":{"type":"boolean"}}}`
+    (schema 0; its property is schema 1).  The override's property `q` (a clone: a new schema) replaces `Inner`'s
+    promoted fields `x`, `y`, whatever their tags; the intermediate struct's own field `m` and the outer `o` stay. -/
+example (tI tMid tX tY tM tO : String)
+    (hM : Parses "M" tM { name := "m" } "m") (hO : Parses "O" tO { name := "o" } "o") :
+    summary (forTypeE { schemas := [("Inner", 0)] } 3
+      (.struct [emb "Mid" tMid (.named "Mid" (.struct [emb "Inner" tI (innerT tX tY), fld "M" tM (.basic "Int")])),
+                fld "O" tO (.basic "Int")])
+      #[{ type := "object", properties := some [("q", 1)] }, { type := "boolean" }]) =
+    some (["q", "m", "o"], ["m", "o"], [("q", "boolean"), ("m", "integer"), ("o", "integer")]) := by
+  have hov : overrideOnlyTypeProps { type := "object", properties := some [("q", 1)] } = true := by decide
+  simp [summary, innerT, fld, emb, forTypeE, inferFuelE, inferStepE, stripPtrsE, typeNameE, visibleFields, allFields, embFields,
+    isVisible, structLoopE, fieldStepE, fieldJSONInfoE, underSkip, overrideOf, addFieldE, hM.info, hO.info, hM.desc,
+    hO.desc, Res.bind_ok, kindEntry_Int, Store.alloc, Store.get?, addNull, dedupKeepLast, insertOverrideProps, sortByKey,
+    insertSorted, hov, clone_override_q]
+
+/-- … an override that is not of type "object", or that has a keyword other than `type` and `properties`, is an error -/
+example (tI tX tY : String) :
+    forTypeE { schemas := [("Inner", 0)] } 3 (.struct [emb "Inner" tI (innerT tX tY)]) #[{ type := "string" }] = .err ∧
+    forTypeE { schemas := [("Inner", 0)] } 3 (.struct [emb "Inner" tI (innerT tX tY)])
+      #[{ type := "object", required := some ["q"] }] = .err := by
+  have hov : overrideOnlyTypeProps { type := "object", required := some ["q"] } = false := by decide
+  constructor <;>
+  simp [innerT, fld, emb, forTypeE, inferFuelE, inferStepE, stripPtrsE, typeNameE, visibleFields, allFields, embFields,
+    isVisible, structLoopE, overrideOf, Store.alloc, Store.get?, hov]
+
+/-- … and a pointer type is never a key of the table: for an embedded `*Inner` the entry of `Inner` is not consulted -/
+example (tI tX tY : String) (hX : Parses "X" tX { name := "x" } "x") (hY : Parses "Y" tY { name := "y", omitempty := true } "y") :
+    summary (forTypeE { schemas := [("Inner", 0)] } 3 (.struct [emb "Inner" tI (.ptr (innerT tX tY))]) #[{ type := "string" }]) =
+    some (["x", "y"], ["x"], [("x", "integer"), ("y", "string")]) := by
+  simp [summary, innerT, fld, emb, forTypeE, inferFuelE, inferStepE, stripPtrsE, typeNameE, visibleFields, allFields, embFields,
+    isVisible, structLoopE, fieldStepE, fieldJSONInfoE, underSkip, overrideOf, addFieldE, hX.info, hY.info, hX.desc,
+    hY.desc, Res.bind_ok, kindEntry_Int, kindEntry_String, Store.alloc, Store.get?, addNull, dedupKeepLast]
+
+/-! ### `visibleFields` against reflect's walker
+
+  `visibleFields` (the specification: the shallowest field of a name, if it is alone at its depth) and
+  `visibleFieldsWalk` (reflect's implementation: `byName`, cleared names) give the same fields in the same order on
+  trees with promotion, shadowing, equal-depth ambiguity, three-way conflicts, a deeper field met before a shallower
+  one, a cancelled pair followed by deeper and shallower fields, and a hidden anonymous field whose fields are still
+  walked.  (No tag is parsed here, so the examples are closed terms.) -/
+
+/-- an exported field `g int` -/
+def wf (g : String) : FieldE GoTypeE := { goName := g, tag := "", exported := true, embedded := false, type := .basic "Int" }
+/-- an embedded struct `g`, by value or by pointer -/
+def we (g : String) (fs : List (FieldE GoTypeE)) (ptr : Bool := false) : FieldE GoTypeE :=
+  { goName := g, tag := "", exported := true, embedded := true,
+    type := if ptr then .ptr (.named g (.struct fs)) else .named g (.struct fs) }
+
+def walkExamples : List (List (FieldE GoTypeE)) :=
+  [[we "Inner" [wf "X", wf "Y"], wf "A"],
+   [wf "X", we "Inner" [wf "X", wf "Y"] true],
+   [we "A" [wf "X", wf "P"], we "B" [wf "X", wf "Q"]],
+   [we "A" [wf "X"], we "B" [wf "X"] true, we "C" [wf "X"]],
+   [we "A" [we "D" [wf "X", wf "Z"]], we "B" [wf "X"], wf "Z"],
+   [we "A" [wf "X"], we "B" [wf "X"], we "C" [we "D" [wf "X"]], wf "X"],
+   [we "A" [we "B" [wf "Y"]], we "B" [wf "Z"]]]
+
+example : walkExamples.all (fun fs => (visibleFields fs).map (·.index) == (visibleFieldsWalk fs).map (·.index)) = true := by
+  decide
+
+/-- e.g. the last one: the anonymous `B` of depth 2 is hidden by the `B` of depth 1, its field `Y` is promoted all the same -/
+example : (visibleFields [we "A" [we "B" [wf "Y"]], we "B" [wf "Z"]]).map (fun f => (f.goName, f.index)) =
+    [("A", [0]), ("Y", [0, 0, 0]), ("B", [1]), ("Z", [1, 0])] := by decide
 
 end JSV.C16
